@@ -82,6 +82,8 @@ def message_pool(remote_as, r=None):
         # AGGREGATOR in both widths (6 octets with a 2-octet AS, 8 with a 4-octet one): well-formed in exactly one session width
         ('update_aggregator4', frame(2, update_body(attrs=bytes.fromhex('40010100' '4002060201' '0000fde9' '4003040a000001' 'c00708' '0000fde9' '0a000009')))),
         ('update_aggregator2', frame(2, update_body(attrs=bytes.fromhex('40010100' '4002040201' 'fde9' '4003040a000001' 'c00706' 'fde9' '0a000009')))),
+        # an AGGREGATOR of 8 octets next to an AS_PATH with 2-octet numbers: malformed in either session width
+        ('update_aggregator8_aspath2', frame(2, update_body(attrs=bytes.fromhex('40010100' '4002040201' 'fde9' '4003040a000001' 'c00708' '0000fde9' '0a000009')))),
         # attributes of length 0 where the RFC fixes a length (ORIGIN, NEXT_HOP), and a last attribute whose header is cut short
         ('update_origin_len0', frame(2, update_body(attrs=bytes.fromhex('400100' '4002040201' 'fde9' '4003040a000001')))),
         ('update_nexthop_len0', frame(2, update_body(attrs=bytes.fromhex('40010100' '4002040201' 'fde9' '400300')))),
